@@ -388,4 +388,4 @@ impl Similarity for Mutation {
 
 #[cfg(kani)]
 #[path = "/verif/kani/similarity_defaults.rs"]
-mod verif_kani;
+pub(crate) mod verif_kani;
